@@ -788,8 +788,6 @@ class AdvancedTag(object):
         # Find the index #beforeChild falls under current element
         try:
             blocksIdx =  myBlocks.index(beforeChild)
-            if isChildTag:
-                childrenIdx = myChildren.index(beforeChild)
         except ValueError:
             # #beforeChild is not a child of this element. Raise error.
             raise ValueError('Provided "beforeChild" is not a child of element, cannot insert.')
@@ -798,6 +796,8 @@ class AdvancedTag(object):
         self.blocks = myBlocks[:blocksIdx] + [child] + myBlocks[blocksIdx:]
         # Add to child in the right spot
         if isChildTag:
+            # #beforeChild may be a text block, so count the tags ahead of the insertion point
+            childrenIdx = len([block for block in myBlocks[:blocksIdx] if isTagNode(block)])
             self.children = myChildren[:childrenIdx] + [child] + myChildren[childrenIdx:]
 
         self._linkInsertedBlock(child, isChildTag)
@@ -828,15 +828,15 @@ class AdvancedTag(object):
         # Determine where we need to insert this both in "blocks" and, if a tag, "children"
         try:
             blocksIdx =  myBlocks.index(afterChild)
-            if isChildTag:
-                childrenIdx = myChildren.index(afterChild)
         except ValueError:
             raise ValueError('Provided "afterChild" is not a child of element, cannot insert.')
 
         # Append child to requested spot
         self.blocks = myBlocks[:blocksIdx+1] + [child] + myBlocks[blocksIdx+1:]
         if isChildTag:
-            self.children = myChildren[:childrenIdx+1] + [child] + myChildren[childrenIdx+1:]
+            # #afterChild may be a text block, so count the tags up to and including it
+            childrenIdx = len([block for block in myBlocks[:blocksIdx+1] if isTagNode(block)])
+            self.children = myChildren[:childrenIdx] + [child] + myChildren[childrenIdx:]
 
         self._linkInsertedBlock(child, isChildTag)
 
